@@ -13,7 +13,7 @@ LEVEL = "exploration"
 QUICK_SHARDS = 4
 RULE = (
     "Hypothesis value trees (microsecond-resolution times; aware datetimes with a drawn UTC offset; generated-code "
-    "variant default or typing.310) over the kitchen-sink corpus. Clauses: "
+    "variant default or typing.310; construction route kwargs / setattr / lazy in-place filling / constructor given several members of one oneof group) over the kitchen-sink corpus. Clauses: "
     "json_format.Parse(bp.to_json(), Ref()) succeeds and equals the reference message built from the tree; "
     "Bp().from_json(json_format.MessageToJson(ref)) has the tree's snapshot (also with "
     "preserving_proto_field_name=True, i.e. original proto names as keys). Non-trivial as C04; labelled by the "
@@ -36,14 +36,14 @@ def targets(ctx):
         return adapters[tz]
 
     @collecting
-    def clauses(out, name, tree, proto_names, variant="default", tz=0):
+    def clauses(out, name, tree, proto_names, variant="default", tz=0, route="kwargs"):
         cls = (c310 if variant == "typing.310" else c).bp(name)
         adapter = adapter_for(tz)
         mi = schema.msg(f"ks.{name}")
         want = norm(schema, mi, tree)
         # betterproto -> reference
         try:
-            m = guard("build", adapter.build, cls, mi, tree)
+            m = guard("build", adapter.build, cls, mi, tree, route)
             text = guard("to_json", m.to_json)
             try:
                 r = json_format.Parse(text, c.ref.cls(mi.full_name)())
@@ -62,22 +62,27 @@ def targets(ctx):
         if got != want:
             out.append(("ref_json_to_bp", f"betterproto reads reference JSON as {got!r:.300}, want {want!r:.300}; json={rtext:.300}"))
 
-    def fails_clause(proto_names, clause, variant="default", tz=0):
+    def fails_clause(proto_names, clause, variant="default", tz=0, route="kwargs"):
         def f(mi, tree):
             name = mi.full_name.split(".")[-1]
-            return any(cl == clause for cl, _ in clauses(name, tree, proto_names, variant, tz))
+            return any(cl == clause for cl, _ in clauses(name, tree, proto_names, variant, tz, route))
 
         return f
 
     def ev(case):
         name, tree, pn = case["msg"], case["tree"], case.get("proto_names", False)
         mi = schema.msg(f"ks.{name}")
-        variant, tz = case.get("variant", "default"), case.get("tz", 0)
-        found = clauses(name, tree, pn, variant, tz)
+        variant, tz, route = case.get("variant", "default"), case.get("tz", 0), case.get("route", "kwargs")
+        from ..values import OutOfDomain
+
+        try:
+            found = clauses(name, tree, pn, variant, tz, route)
+        except OutOfDomain as e:
+            return Eval(discard=str(e))
         fails = []
         for clause, detail in found:
             fails += cm.failures_for(schema, mi, tree, clause, f"msg={name} proto_names={pn} tree={tree!r} :: {detail}",
-                                     fails_clause(pn, clause, variant, tz))
+                                     fails_clause(pn, clause, variant, tz, route))
         rules = []
         for fi in mi.fields:
             if fi.name in tree:
@@ -89,7 +94,7 @@ def targets(ctx):
                         rules.append("rule:" + lab)
                 if fi.json_name != fi.name:
                     rules.append("rule:camel_key")
-        return Eval(fails, nontrivial=json_nontrivial(schema, mi, tree), labels=cm.labels_for(schema, mi, tree) + sorted(set(rules)))
+        return Eval(fails, nontrivial=json_nontrivial(schema, mi, tree), labels=cm.labels_for(schema, mi, tree) + sorted(set(rules)) + [f"route:{route}"])
 
     base = cm.msg_tree_strategy(c)
 
@@ -99,6 +104,7 @@ def targets(ctx):
         case["proto_names"] = draw(st.booleans())
         case["variant"] = draw(st.sampled_from(["default", "default", "typing.310"]))
         case["tz"] = draw(st.sampled_from([0, 0, 330, -480, 60, 840]))
+        case["route"] = draw(st.sampled_from(["kwargs", "kwargs", "kwargs", "setattr", "lazy", "kwargs_multi", "kwargs_multi"]))
         return case
 
     def strip_enums(schema_, mi_, tree_):
